@@ -125,7 +125,7 @@ def run_history(w, hist: str, shared: bool, api: str, advancing: bool, real_entr
                         kw["root_key_identifier"] = w["rkN"].rkid
                     else:
                         f = (dpapi_ng.ncrypt_protect_secret, dpapi_ng.async_ncrypt_protect_secret)[api == "async"]
-                        pt, sid, rk = {"A": (P1, SID1, "rkN"), "B": (P2, SID1, "rkN"), "C": (P1, SID2, "rkN"), "D": (P1, SID1, "rkD"), "E": (P1, SID1, "rkE"), "F": (P1, SID1, "rkS"), "G": (P1, SID1, "rkG")}[op]
+                        pt, sid, rk = {"A": (P1, SID1, "rkN"), "B": (P2, SID1, "rkN"), "C": (P1, SID2, "rkN"), "D": (P1, SID1, "rkD"), "E": (P1, SID1, "rkE"), "F": (P1, SID1, "rkS"), "G": (P1, SID1, "rkG"), "Z": (b"", SID1, "rkN"), "Y": (b"", SID1, "rkE")}[op]
                         args = (pt, sid)
                         kw["root_key_identifier"] = w[rk].rkid
                     v = f(*args, **kw) if api == "sync" else vloop.run(f(*args, **kw))
@@ -392,7 +392,8 @@ def run_shard(shard, tier, seed, acc) -> None:
         return
     if shard[0] == "long":
         # one long history (N protects with identical / alternating arguments, far beyond the depth bound) under both entropy sources
-        for hist in ("A" * 256, "AB" * 40 + "U" + "AC" * 24, "E" * 12 + "D" * 6):
+        # (Z, Y: the EMPTY secret, nonce mode / public-key mode - its ciphertext is the 16-octet GCM tag, different every time)
+        for hist in ("A" * 256, "AB" * 40 + "U" + "AC" * 24, "E" * 12 + "D" * 6, "ZZ", "ZAZUZ", "AZZA", "YY", "ZYZY"):
             for real in (False, True):
                 judge(acc, w, hist, True, shard[1], False, real, ["shard", shard, tier])
                 acc.ev()
